@@ -15,6 +15,22 @@
 //   * assign: one entry per source, each a sink of positive demand (when one exists); every source
 //     with positive supply that the plan sends to a single sink gets that sink or one at the same position
 //   * no sanitizer report / crash / unexpected exception
+//
+// Self-checks (`Model/Transp1dChecks.lean`).  On every instance the op `full` compares `solve()` WITH
+// its internal checks (`check`, `solver.check`, `checkSolutionValid`, `checkSolutionOptimal`) with the
+// model's `solveFull`, including WHICH exception is thrown (the message is mapped to a site tag).
+// A second stream of "raw" cases (`rpb`: the four vectors may have different sizes) drives the check
+// functions themselves with malformed inputs — size mismatches, negative supplies/demands, supply >
+// demand, unsorted positions, zero capacities, empty sides, several defects at once (order of the
+// tests) — through `Transportation1d::check()` (`chk`), `Transportation1dSolver(u,v,s,d).check()`
+// (`schk`, no sorter in front) and `solve()` (`full`); and, on valid sorted zero-free instances,
+// `checkSolutionValid` (`val`) / `checkSolutionOptimal` (`opt`) with the solver's own solution and
+// mutations of it (dropped / duplicated entries, amounts +-1, entries moved to a neighbouring sink or
+// another source, the reverse greedy plan).  Only calls that are memory-safe by inspection are made
+// (indices of mutated solutions stay in range; `opt` only with all demands positive, where the
+// LLONG_MIN sentinel is never read); everything runs in the forked child anyway.
+// Oracle on raw cases (nothing is demanded on malformed input): a valid instance must pass check()
+// and solve(); the solver's own solution must pass both solution checks.
 #include <algorithm>
 #include <climits>
 #include <numeric>
@@ -29,16 +45,24 @@ struct Inst {
   std::vector<ll> u, v, s, d;
   bool balance = false;
   bool cert = false;
+  bool raw = false;       // raw check case: sizes of u, v, s, d are independent
+  uint64_t mseed = 0;     // raw: seed of the solution mutations (drawn in the child)
   ll scale = 1;  // quantities are `scale` times those of a base instance (for the optimum oracle)
   std::string str() const {
     std::ostringstream os;
+    if (raw) {
+      os << "raw " << mseed << " " << u.size() << " " << v.size() << " " << s.size() << " " << d.size() << " " << vh::join(u)
+         << " | " << vh::join(v) << " | " << vh::join(s) << " | " << vh::join(d);
+      return os.str();
+    }
     os << u.size() << " " << v.size() << " " << vh::join(u) << " | " << vh::join(v) << " | " << vh::join(s) << " | "
        << vh::join(d) << (balance ? " | balance" : "");
     return os.str();
   }
   std::string pbLine() const {
     std::ostringstream os;
-    os << "pb " << u.size() << " " << v.size();
+    if (raw) os << "rpb " << u.size() << " " << v.size() << " " << s.size() << " " << d.size();
+    else os << "pb " << u.size() << " " << v.size();
     for (ll x : u) os << " " << x;
     for (ll x : v) os << " " << x;
     for (ll x : s) os << " " << x;
@@ -80,9 +104,140 @@ static ll exactOptimum(const Inst &in, const std::vector<ll> &d, ll limit) {
   return prev[B] >= INF ? -2 : prev[B] * K;
 }
 
+// message of the exception -> site tag (constructor names of `Site` in Model/Transp1dChecks.lean)
+static std::string siteOf(const std::string &w) {
+  static const char *tab[][2] = {
+      {"Inconsistant source positions", "srcPosSize"}, {"Inconsistant sink positions", "snkPosSize"},
+      {"Inconsistant supplies", "supSize"}, {"Inconsistant demands", "demSize"},
+      {"Supplies must be non-negative", "supNeg"}, {"Demands must be non-negative", "demNeg"},
+      {"The supply should be no larger than the demand", "supGtDem"},
+      {"Inconsistant total supplies", "totSupSize"}, {"Inconsistant total demands", "totDemSize"},
+      {"Too many positions computed", "tooManyPos"}, {"Source positions should be sorted", "srcUnsorted"},
+      {"Sink positions should be sorted", "snkUnsorted"}, {"Supplies must be non-zero", "supZero"},
+      {"Demands must be non-zero", "demZero"}, {"Allocation should be positive", "allocNonPos"},
+      {"Supply is not met", "supNotMet"}, {"Demand is not met", "demExceeded"},
+      {"Found an improving right move", "improvingRight"}, {"Found an improving left move", "improvingLeft"}};
+  for (auto &t : tab)
+    if (w == t[0]) return t[1];
+  return "unknown:" + w;
+}
+
+// run `f`, report `tag ok` or `tag throw:runtime_error <site>`; returns the site ("" when no throw)
+template <class F>
+static std::string guarded(std::ostream &os, const std::string &tag, const std::string &cnt, F f) {
+  try {
+    f();
+    os << "I " << tag << " ok\n";
+    os << "C " << cnt << "_ok\n";
+    return "";
+  } catch (const std::runtime_error &e) {
+    std::string st = siteOf(e.what());
+    os << "I " << tag << " throw:runtime_error " << st << "\n";
+    os << "C " << cnt << "_throw_" << st << "\n";
+    return st;
+  }
+}
+
+typedef Transportation1d::Solution Sol;
+
+static std::string solWords(const Sol &sol) {
+  std::ostringstream l;
+  l << sol.size();
+  for (auto [i, j, a] : sol) l << " " << i << " " << j << " " << a;
+  return l.str();
+}
+
+// raw check case (see the header)
+static void runRaw(const Inst &in, std::ostream &os) {
+  os << "I case " << in.id << "\n";
+  auto fail = [&](const std::string &w) { os << "F " << w << "\n"; };
+  size_t n = in.u.size(), m = in.v.size();
+  bool sizes = in.s.size() == n && in.d.size() == m;
+  bool nonneg = true, pos = true, sorted = true;
+  for (ll c : in.s) { nonneg = nonneg && c >= 0; pos = pos && c > 0; }
+  for (ll c : in.d) { nonneg = nonneg && c >= 0; pos = pos && c > 0; }
+  for (size_t i = 0; i + 1 < n; ++i) sorted = sorted && in.u[i] <= in.u[i + 1];
+  for (size_t j = 0; j + 1 < m; ++j) sorted = sorted && in.v[j] <= in.v[j + 1];
+  bool inDomain = sizes && nonneg && sum(in.s) <= sum(in.d);
+  os << "C " << (inDomain ? (sorted && pos ? "raw_valid_sorted_zero_free" : "raw_valid") : "raw_malformed") << "\n";
+  std::string st = guarded(os, "chk", "raw_chk", [&] { Transportation1d(in.u, in.v, in.s, in.d).check(); });
+  if (inDomain && !st.empty()) fail("check() rejected a valid instance: " + st);
+  guarded(os, "schk", "raw_schk", [&] {
+    Transportation1dSolver sv(std::vector<ll>(in.u), std::vector<ll>(in.v), std::vector<ll>(in.s), std::vector<ll>(in.d));
+    sv.check();
+  });
+  try {
+    Sol sol = Transportation1d(in.u, in.v, in.s, in.d).solve();
+    os << "I full";
+    for (auto [i, j, a] : sol) os << " " << i << " " << j << " " << a;
+    os << "\n";
+    os << "C raw_full_ok\n";
+  } catch (const std::runtime_error &e) {
+    std::string s2 = siteOf(e.what());
+    os << "I full throw:runtime_error " << s2 << "\n";
+    os << "C raw_full_throw_" << s2 << "\n";
+    if (inDomain) fail("solve() threw on a valid instance: " + s2);
+  }
+  if (!(inDomain && sorted && pos && n > 0 && m > 0)) { os << "E\n"; return; }
+  // the solver's own solution and mutations of it
+  Transportation1dSolver sv(std::vector<ll>(in.u), std::vector<ll>(in.v), std::vector<ll>(in.s), std::vector<ll>(in.d));
+  sv.run();
+  Sol base = sv.computeSolution();
+  vh::Rng g = vh::Rng::forCase(in.mseed, 0);
+  auto mutate = [&](Sol sol) {
+    int k = g.range(1, 3);
+    for (int t = 0; t < k; ++t) {
+      int what = g.range(0, 6);
+      if (sol.empty()) { sol.emplace_back((int)g.range(0, n - 1), (int)g.range(0, m - 1), g.range(-1, 3)); continue; }
+      size_t e = g.range(0, sol.size() - 1);
+      auto &[i, j, a] = sol[e];
+      if (what == 0) sol.erase(sol.begin() + e);
+      else if (what == 1) a += g.chance(1, 2) ? 1 : -1;
+      else if (what == 2) j = j + 1 < (int)m ? j + 1 : j;
+      else if (what == 3) j = j > 0 ? j - 1 : j;
+      else if (what == 4) i = (int)g.range(0, n - 1);
+      else if (what == 5) sol.push_back(sol[e]);
+      else j = (int)g.range(0, m - 1);
+    }
+    return sol;
+  };
+  // reverse greedy: sources in order, sinks filled from the last one (valid, usually not optimal)
+  auto reverseGreedy = [&] {
+    Sol sol;
+    std::vector<ll> left = in.d;
+    int j = (int)m - 1;
+    for (size_t i = 0; i < n; ++i) {
+      ll need = in.s[i];
+      while (need > 0 && j >= 0) {
+        ll a = std::min(need, left[j]);
+        if (a > 0) { sol.emplace_back((int)i, j, a); need -= a; left[j] -= a; }
+        if (left[j] == 0) --j;
+      }
+    }
+    return sol;
+  };
+  std::vector<std::pair<Sol, bool>> sols;  // (solution, is the solver's own)
+  sols.emplace_back(base, true);
+  sols.emplace_back(reverseGreedy(), false);
+  int extra = g.range(2, 5);
+  for (int t = 0; t < extra; ++t) sols.emplace_back(mutate(g.chance(1, 4) ? sols[1].first : base), false);
+  for (auto &[sol, own] : sols) {
+    std::string w = solWords(sol);
+    os << "O val " << w << "\n";
+    std::string s1 = guarded(os, "val", "raw_val", [&] { sv.checkSolutionValid(sol); });
+    os << "O opt " << w << "\n";
+    std::string s2 = guarded(os, "opt", "raw_opt", [&] { sv.checkSolutionOptimal(sol); });
+    if (own && !s1.empty()) fail("checkSolutionValid rejects the solver's own solution: " + s1);
+    if (own && !s2.empty()) fail("checkSolutionOptimal rejects the solver's own solution: " + s2);
+    if (!own && s1.empty() && !s2.empty()) os << "C raw_valid_plan_flagged_not_optimal\n";
+  }
+  os << "N\nE\n";
+}
+
 // ---- child side: run the real code on one instance, emit tagged lines -------------------------
 //   I <impl line>    F <oracle failure>    C <count key>    N (non-trivial)    E (case complete)
 static void runCase(const Inst &in, std::ostream &os, ll dpLimit) {
+  if (in.raw) { runRaw(in, os); return; }
   os << "I case " << in.id << "\n";
   auto fail = [&](const std::string &w) { os << "F " << w << "\n"; };
   size_t n = in.u.size(), m = in.v.size();
@@ -118,8 +273,11 @@ static void runCase(const Inst &in, std::ostream &os, ll dpLimit) {
     l << "solve";
     for (auto [i, j, a] : sol) l << " " << i << " " << j << " " << a;
     os << "I " << l.str() << "\n";
+    os << "I full" << l.str().substr(5) << "\n";
   } catch (const std::runtime_error &e) {
     os << "I solve throw:runtime_error\n";
+    os << "I full throw:runtime_error " << siteOf(e.what()) << "\n";
+    os << "C full_throw_" << siteOf(e.what()) << "\n";
     if (inDomain) fail(std::string("solve() threw on a valid instance: ") + e.what());
   }
   if (!inDomain && solved) fail("solve() accepted an instance outside the domain");
@@ -203,6 +361,7 @@ struct Runner {
   }
   void stats(const Inst &in) {
     out.evaluations++;
+    if (in.raw) { out.count("raw_check_cases"); out.sample(in.str()); return; }
     bool z = false, zd = false, dupS = false, unsorted = false;
     for (ll c : in.s) z = z || c == 0;
     for (ll c : in.d) zd = zd || c == 0;
@@ -220,8 +379,9 @@ struct Runner {
   }
   void writeOps(const Inst &in) {
     out.ops << "case " << in.id << "\n" << in.pbLine() << "\n";
+    if (in.raw) { out.ops << "chk\nschk\nfull\n"; return; }  // `val` / `opt` lines come from the child
     if (in.balance) out.ops << "balance\n";
-    out.ops << "solve\nassign\n";
+    out.ops << "solve\nfull\nassign\n";
     if (in.cert) out.ops << "cert\n";
     out.ops << "loc\n";
   }
@@ -237,7 +397,8 @@ struct Runner {
       if (t == 'I') {
         if (body.rfind("case ", 0) == 0) { open = true; writeOps(pending[k]); stats(pending[k]); }
         out.impl << body << "\n";
-      } else if (t == 'F') out.fail(pending[k].id, body, pending[k].str());
+      } else if (t == 'O') out.ops << body << "\n";
+      else if (t == 'F') out.fail(pending[k].id, body, pending[k].str());
       else if (t == 'C') out.count(body);
       else if (t == 'N') out.nontrivial(vh::hashStr(pending[k].str()));
       else if (t == 'E') { open = false; ++k; }
@@ -371,14 +532,75 @@ static Inst randomInst(vh::Rng &g) {
   return in;
 }
 
+// raw check cases: a valid sorted zero-free base instance, then (classes 0..5) one or several defects
+static Inst randomRaw(vh::Rng &g) {
+  Inst in;
+  in.raw = true;
+  in.mseed = g.next() >> 1;
+  int n = g.range(1, g.chance(1, 5) ? 12 : 5), m = g.range(1, g.chance(1, 5) ? 10 : 5);
+  int pm = g.range(0, 3);
+  ll hi = pm == 0 ? 3 : (pm == 1 ? 10 : (pm == 2 ? 1000 : 100000000ll));
+  for (int i = 0; i < n; ++i) in.u.push_back(g.range(pm == 3 ? -hi : 0, hi));
+  for (int j = 0; j < m; ++j) in.v.push_back(g.range(pm == 3 ? -hi : 0, hi));
+  std::sort(in.u.begin(), in.u.end());
+  std::sort(in.v.begin(), in.v.end());
+  ll smax = g.chance(1, 2) ? 3 : (g.chance(1, 2) ? 40 : 1000000);
+  for (int i = 0; i < n; ++i) in.s.push_back(g.range(1, smax));
+  ll ts = sum(in.s), avg = ts / m + 1;
+  for (int j = 0; j < m; ++j) in.d.push_back(g.range(1, 2 * avg));
+  int bal = g.range(0, 2);  // 0: slack, 1: exact balance, 2: little slack
+  ll td = sum(in.d);
+  while (td < ts) { ll add = std::min(ts - td, g.range(1, avg + 1)); in.d[g.range(0, m - 1)] += add; td += add; }
+  if (bal >= 1)
+    for (int guard = 0; td > ts + (bal == 2 ? 1 : 0) && guard < 100000; ++guard) {
+      int j = g.range(0, m - 1);
+      ll sub = std::min(in.d[j] - 1, td - ts);
+      in.d[j] -= sub; td -= sub;
+    }
+  int cls = g.range(0, 9);
+  if (cls > 5) return in;  // valid: the solution checks run on it
+  auto defect = [&](int k) {
+    if (k == 0) {  // size mismatch
+      auto &w = g.chance(1, 2) ? in.s : in.d;
+      if (g.chance(1, 2) || w.empty()) w.push_back(g.range(0, 3)); else w.pop_back();
+    } else if (k == 1) {  // negative quantity
+      auto &w = g.chance(1, 2) ? in.s : in.d;
+      if (!w.empty()) w[g.range(0, w.size() - 1)] = -g.range(1, 3);
+    } else if (k == 2) {  // supply > demand
+      if (!in.s.empty()) in.s[g.range(0, in.s.size() - 1)] += sum(in.d) - sum(in.s) + g.range(1, 3);
+    } else if (k == 3) {  // unsorted positions
+      auto &w = g.chance(1, 2) ? in.u : in.v;
+      if (w.size() >= 2) { size_t a = g.range(0, w.size() - 2); if (w[a] == w[a + 1]) w[a + 1] += 1; std::swap(w[a], w[a + 1]); }
+    } else if (k == 4) {  // zero capacity
+      auto &w = g.chance(1, 2) ? in.s : in.d;
+      if (!w.empty()) w[g.range(0, w.size() - 1)] = 0;
+    } else {  // empty side(s)
+      int e = g.range(0, 3);
+      if (e == 0 || e == 2) { in.u.clear(); in.s.clear(); }
+      if (e == 1 || e == 2) { in.v.clear(); in.d.clear(); }
+      if (e == 3) { in.v.clear(); in.d.clear(); for (auto &c : in.s) c = 0; }
+    }
+  };
+  defect(cls);
+  while (g.chance(1, 3)) defect(g.range(0, 5));  // several defects: the order of the tests matters
+  return in;
+}
+
 static bool parseInst(const std::string &ln, Inst &in) {
-  // "<n> <m> u.. | v.. | s.. | d.. [| balance]"
+  // "<n> <m> u.. | v.. | s.. | d.. [| balance]"   or   "raw <mseed> <nu> <nv> <ns> <nd> u.. | v.. | s.. | d.."
   std::string t = ln;
   for (char &c : t) if (c == '|') c = ' ';
   std::istringstream is(t);
+  auto rd = [&](std::vector<ll> &a, size_t k) { a.resize(k); for (auto &x : a) if (!(is >> x)) return false; return true; };
+  if (t.rfind("raw ", 0) == 0) {
+    std::string w;
+    size_t nu, nv, ns, nd;
+    if (!(is >> w >> in.mseed >> nu >> nv >> ns >> nd)) return false;
+    in.raw = true;
+    return rd(in.u, nu) && rd(in.v, nv) && rd(in.s, ns) && rd(in.d, nd);
+  }
   size_t n, m;
   if (!(is >> n >> m)) return false;
-  auto rd = [&](std::vector<ll> &a, size_t k) { a.resize(k); for (auto &x : a) if (!(is >> x)) return false; return true; };
   if (!rd(in.u, n) || !rd(in.v, m) || !rd(in.s, n) || !rd(in.d, m)) return false;
   std::string w;
   if (is >> w && w == "balance") in.balance = true;
@@ -442,6 +664,14 @@ int main(int argc, char **argv) {
     if (in.u.size() > 6 || in.v.size() > 6) in.cert = (i % 4 == 0);
     r.add(std::move(in));
     out.count("random_instances");
+  }
+  // raw check cases (self-checks driven directly, malformed inputs)
+  ll nraw = a.thorough() ? 300000 : (a.search() ? 40000 : 25000);
+  for (ll i = 0; i < nraw; ++i) {
+    vh::Rng g = vh::Rng::forCase(a.seed, 1000000000ll + i);
+    Inst in = randomRaw(g);
+    in.id = "k" + std::to_string(i);
+    r.add(std::move(in));
   }
   r.flush();
   out.finish();
